@@ -9,7 +9,7 @@ import featgen
 import passgen
 
 GEN_MODULES = ["Lz4", "Err"]
-ASSUMPTIONS = ["theorems: sfnt container as FileFace reads it, the layout half of Pass::readPass, Pass::readRanges, cmap lookups after CheckCmapSubtable*, compressed tables and LZ4 (Props/C01.lean, C13, C14) are total / in-bounds for ALL bytes",
+ASSUMPTIONS = ["theorems: sfnt container as FileFace reads it, Silf::readClassMap and the class look-ups, the layout half of Pass::readPass, readStates, the rule map, Pass::readRanges, cmap lookups after CheckCmapSubtable*, compressed tables and LZ4 (Props/C01.lean, C13, C14) are total / in-bounds for ALL bytes",
                "the rest of the loader (Silf, Pass, Code, Glat/Gloc, Feat/Sill/name, queries, destruction) is decided on the implementation under ASan/UBSan/LSan with mutated and structurally hostile fonts - a finite exploration, not a theorem"]
 TRUSTED = ["hand-written model GrVerif/Model/Loader.lean tied by correspondence", "sanitizers as the oracle for memory safety", "tools/fontmut.py, tools/fontsynth.py, tools/featgen.py"]
 
@@ -146,6 +146,15 @@ def run(ctx):
             lib.correspond(ctx, res, "h_pass", "loader", pl, comp_holds, exe_args=[bfp], per_chunk=200, same=pass_same,
                            classify=lambda l, i: "pass:" + ("fault" if i.startswith(("fault", "CRASH")) else i.split()[0]),
                            rule="Pass::readPass: %d passes of shipped and synthesised fonts, intact and mutated, loaded with the Silf/Face of %s; the layout result (error code or the header numbers) must be the model's; what follows the layout runs under ASan" % (len(pool), bf))
+        # Silf::readClassMap on well-formed and mutated class maps (both offset widths), then getClassGlyph / findClassIndex on
+        # the accepted ones for classes below and above the class count
+        cl = []
+        for _ in range(2500 if q else 120000):
+            w, cb, pr = passgen.gen_classmap(r)
+            cl.append("classmap %d %s %s" % (1 if w else 0, cb.hex() or "-", pr))
+        lib.correspond(ctx, res, "h_pass", "loader", cl, comp_holds, exe_args=[str(lib.REPO / "tests" / "fonts" / "Padauk.ttf")], per_chunk=300,
+                       classify=lambda l, i: "classmap:" + ("fault" if i.startswith(("fault", "CRASH")) else i.split()[0]),
+                       rule="Silf::readClassMap: class maps with 0..4 linear and 0..3 look-up classes, 16 and 32 bit offsets, intact or with a count, an offset, a header word, the first offset or the length changed; 12 probes of both look-ups per accepted map")
         exe = lib.build_harness("h_seg")
         fonts, hl, meta = [], [], []
 
